@@ -12,6 +12,14 @@ C13 — model of the persistence paths of `hydrodiy.gis.grid` (after the `fix:` 
 * `Grid.to_dict/from_dict`, `Grid.clone(dtype)`, `Grid.clip`                                   → `toDict`, `fromDict`, `clone`, `cloneAs`, `clip`
 * `Catchment.to_dict/from_dict`                                                                → `catchToDict`, `catchFromDict`
 * clone independence: grids as handles into an explicit array store                            → `Store`, `SOp`, `Store.clone`, `Store.cloneMap`
+* `_clipdata` for the float types (`np.isfinite`, `np.isnan`, `np.maximum / np.minimum` on bit patterns),
+  the `mindata / maxdata` setters                                                              → `clipWord`, `maxWord`, `minWord`, `setMin`, `setMax`
+* the grid object as a state machine: every public mutator, accepted or rejected
+  (`__setitem__` with any index, `fill`, the `data` / `nodata` / `mindata` / `maxdata` setters with any
+  value, `load`), the accessor `__getitem__`                                                   → `Op`, `step`, `run`, `getItem`
+* `Catchment.delineate_area` as far as it updates outlet, inlets and areas (fault path included)→ `COp`, `cstep`, `crun`
+* `Grid.from_dict` with optional keys missing                                                  → `fromDictP`
+* file names: `save(filename)`, `from_header(path)`, `from_zip(archive, member)`               → `saveFS`, `fromHeaderFS`, `fromZipFS`
 
 Strings are `List Char`; cell values and the no-data value are *words* (the bit pattern of the numpy
 scalar, `< 256^itemsize`), so that "bit-identical" is equality. Georeferencing numbers are an abstract
@@ -208,12 +216,83 @@ def reshape {β : Type} : Nat → Nat → List β → List (List β)
   | 0, _, _ => []
   | nrows + 1, ncols, data => data.take ncols :: reshape nrows ncols (data.drop ncols)
 
+/-! ### floating point words as far as `_clipdata` looks at them
+
+`np.isfinite`, `np.isnan` and the order of two non-NaN floats are decided on the bit pattern (sign, exponent,
+fraction): no rounding is involved, `np.maximum / np.minimum` return one of their two operands. -/
+
+/-- number of fraction bits of float16 / float32 / float64 -/
+def mantBits (t : DType) : Nat := if t.bytes = 2 then 10 else if t.bytes = 4 then 23 else 52
+
+/-- biased exponent field -/
+def expField (t : DType) (w : Nat) : Nat := w / 2 ^ mantBits t % 2 ^ (8 * t.bytes - 1 - mantBits t)
+
+/-- all-ones exponent: inf or NaN -/
+def expAll (t : DType) : Nat := 2 ^ (8 * t.bytes - 1 - mantBits t) - 1
+
+/-- `np.isnan` of a float word -/
+def isNaNW (t : DType) (w : Nat) : Bool := expField t w == expAll t && w % 2 ^ mantBits t != 0
+
+/-- `np.isfinite` of a float word -/
+def isFiniteW (t : DType) (w : Nat) : Bool := expField t w != expAll t
+
+/-- an integer that orders non-NaN float words as their values are ordered (sign and magnitude; `-0.0` and `0.0`
+both map to 0, `±inf` to the extremes) -/
+def floatKey (t : DType) (w : Nat) : Int :=
+  let m := w % 2 ^ (8 * t.bytes - 1)
+  if w / 2 ^ (8 * t.bytes - 1) % 2 = 1 then -(m : Int) else (m : Int)
+
+/-- a bound as it is stored in `lo / hi`: the integer for the integer types, the bit pattern for the float types -/
+def boundOfWord (t : DType) (w : Nat) : Int :=
+  match t.kind with
+  | .float => (w : Int)
+  | _ => toInt t w
+
+/-- `np.isfinite(bound)`: always true for an integer scalar -/
+def boundFinite (t : DType) (b : Int) : Bool :=
+  match t.kind with
+  | .float => isFiniteW t b.toNat
+  | _ => true
+
+/-- `np.maximum(x, bound)` on one word (`bound` as stored, see `boundOfWord`): `x` when it is NaN or not below the
+bound, else the bound (a NaN bound is returned for every non-NaN `x`: the comparison is false). When `x` and the
+bound are the two zeros of a float type numpy returns either (platform dependent): never generated. -/
+def maxWord (t : DType) (b : Int) (w : Nat) : Nat :=
+  match t.kind with
+  | .float =>
+    if isNaNW t w then w
+    else if isNaNW t b.toNat then b.toNat
+    else if floatKey t w < floatKey t b.toNat then b.toNat else w
+  | _ => if toInt t w < b then ofInt t b else w
+
+/-- `np.minimum(x, bound)` on one word -/
+def minWord (t : DType) (b : Int) (w : Nat) : Nat :=
+  match t.kind with
+  | .float =>
+    if isNaNW t w then w
+    else if isNaNW t b.toNat then b.toNat
+    else if floatKey t b.toNat < floatKey t w then b.toNat else w
+  | _ => if b < toInt t w then ofInt t b else w
+
+/-- `if np.isfinite(self._mindata): value = np.maximum(value, self._mindata)` on a float word -/
+def clipLoF (t : DType) (lo : Option Int) (w : Nat) : Nat :=
+  match lo with
+  | some l => if boundFinite t l then maxWord t l w else w
+  | none => w
+
+/-- `if np.isfinite(self._maxdata): value = np.minimum(value, self._maxdata)` on a float word -/
+def clipHiF (t : DType) (hi : Option Int) (w : Nat) : Nat :=
+  match hi with
+  | some h => if boundFinite t h then minWord t h w else w
+  | none => w
+
 /-- `_clipdata` followed by `astype(self.dtype)` on one value of the grid's own dtype: `mindata/maxdata`
-are `None`-like when infinite (the default); a finite bound is a scalar of the grid dtype and is applied
-with `np.maximum / np.minimum` in that dtype. Bounds on float grids are not modelled (identity). -/
+are `None`-like when they are the python floats `∓inf` of `__init__` (the default); a bound that was set is a scalar of
+the grid dtype and is applied with `np.maximum / np.minimum` in that dtype when `np.isfinite` holds for it (always,
+for an integer type; a float bound set to `±inf` or NaN is no bound). -/
 def clipWord (t : DType) (lo hi : Option Int) (w : Nat) : Nat :=
   match t.kind with
-  | .float => w
+  | .float => clipHiF t hi (clipLoF t lo w)
   | _ =>
     let v := toInt t w
     let v := match lo with | some l => if v < l then l else v | none => v
@@ -287,6 +366,16 @@ inductive Err
   | notDelineated
   /-- clip corner outside the extent: outside the property, not modelled -/
   | cornerOutside
+  /-- `IndexError`: flat index outside `[-size, size)` in `grid[idx] = …` -/
+  | badIndex
+  /-- `mindata > maxdata` after a bound was assigned -/
+  | badBounds
+  /-- `save` with a file name that does not end with `bil` -/
+  | badFilename
+  /-- `delineate_area`: the kernel returns an error code -/
+  | delineationFailed
+  /-- `from_header`: the header file does not exist (`ValueError`) -/
+  | missingFile
   deriving DecidableEq, Repr
 
 /-- `self.dtype(value)`: the no-data setter -/
@@ -336,7 +425,8 @@ structure Grid (ν : Type) where
   dtype : DType
   /-- `_nodata`, a scalar of `dtype` -/
   nodata : Nat
-  /-- finite `mindata` / `maxdata` of an integer grid -/
+  /-- `mindata` / `maxdata`: `none` is the python float `∓inf` of `__init__`; a bound that was set is a scalar of the
+  grid dtype, stored as its integer value (integer types) or as its bit pattern (float types), see `boundOfWord` -/
   lo : Option Int := none
   hi : Option Int := none
   data : List (List Nat)
@@ -746,7 +836,8 @@ inductive SOp where
   | setItem (idx : Nat) (w : Nat)
   /-- `grid.fill(w)` : in-place -/
   | fill (w : Nat)
-  /-- `grid.data = rows` : rebinds `_data` to a fresh array -/
+  /-- `grid.data = rows` : rebinds `_data` to a fresh array when `rows` has the shape of the grid (= the shape of the
+  array it holds); an array of another shape is rejected and nothing is rebound -/
   | setData (rows : List (List Nat))
 
 def setFlat (rows : List (List Nat)) (idx w : Nat) : List (List Nat) :=
@@ -759,7 +850,8 @@ def Store.read (s : Store) (h : Handle) : List (List Nat) := s.getD h.arr []
 def SOp.apply (s : Store) (h : Handle) : SOp → Store × Handle
   | .setItem idx w => (s.set h.arr (setFlat (s.read h) idx w), h)
   | .fill w => (s.set h.arr ((s.read h).map fun r => r.map fun _ => w), h)
-  | .setData rows => (s ++ [rows], ⟨s.length⟩)
+  | .setData rows =>
+    if rows.map List.length = (s.read h).map List.length then (s ++ [rows], ⟨s.length⟩) else (s, h)
 
 /-- `clone()`: `deepcopy` allocates a new array with the same content -/
 def Store.clone (s : Store) (h : Handle) : Store × Handle := (s ++ [s.read h], ⟨s.length⟩)
@@ -806,5 +898,230 @@ def applyEdits {ν : Type} : Grid ν → List (Edit ν) → Except Err (Grid ν)
   | g, e :: es => match applyEdit g e with
     | .error err => .error err
     | .ok g' => applyEdits g' es
+
+/-! ## 12. the grid object as a state machine: every public mutator, accepted or REJECTED
+
+`step` returns the state after the call and the error the call raised, if any. A rejected call leaves the object
+as it was — except `mindata / maxdata`, which store the new bound before they compare the two bounds (the state
+after the `ValueError` holds the new bound; the data are not clipped). The accessors (`save`, `to_dict`, `clone`,
+`clip`, `__getitem__`) are functions of the state and are not operations of the machine. -/
+
+/-- `self._data.flat[np.int64(index)]`: a negative index counts from the end; outside `[-size, size)` numpy raises
+`IndexError` -/
+def flatIndex (size : Nat) (idx : Int) : Option Nat :=
+  if 0 ≤ idx ∧ idx < (size : Int) then some idx.toNat
+  else if idx < 0 ∧ -(size : Int) ≤ idx then some (idx + (size : Int)).toNat
+  else none
+
+/-- `grid[idx]` (`__getitem__`): the word at the flat index, `IndexError` outside `[-size, size)` -/
+def getItem {ν : Type} (g : Grid ν) (idx : Int) : Except Err Nat :=
+  match flatIndex g.data.flatten.length idx with
+  | some i => match g.data.flatten[i]? with
+    | some w => .ok w
+    | none => .error .badIndex
+  | none => .error .badIndex
+
+/-- `a > b` for `a = _mindata`, `b = _maxdata` (`none` = the python floats `-inf` / `+inf` of `__init__`; a
+comparison with a NaN is false) -/
+def boundGt (t : DType) (lo hi : Option Int) : Bool :=
+  match lo, hi with
+  | some l, some h =>
+    (match t.kind with
+     | .float => !isNaNW t l.toNat && !isNaNW t h.toNat && decide (floatKey t h.toNat < floatKey t l.toNat)
+     | _ => decide (h < l))
+  | _, _ => false
+
+/-- the `mindata` setter: `_mindata = dtype(value)`; `ValueError` if `_mindata > _maxdata` (the new bound stays);
+else `_data = np.maximum(_data, _mindata)` (no `isfinite` test here) -/
+def setMin {ν : Type} (io : NumIO ν) (g : Grid ν) (v : NVal ν) : Grid ν × Option Err :=
+  match nodataWord io g.dtype v with
+  | .error e => (g, some e)
+  | .ok w =>
+    let b := boundOfWord g.dtype w
+    let g1 := { g with lo := some b }
+    if boundGt g.dtype g1.lo g1.hi then (g1, some .badBounds)
+    else ({ g1 with data := g.data.map fun r => r.map (maxWord g.dtype b) }, none)
+
+/-- the `maxdata` setter -/
+def setMax {ν : Type} (io : NumIO ν) (g : Grid ν) (v : NVal ν) : Grid ν × Option Err :=
+  match nodataWord io g.dtype v with
+  | .error e => (g, some e)
+  | .ok w =>
+    let b := boundOfWord g.dtype w
+    let g1 := { g with hi := some b }
+    if boundGt g.dtype g1.lo g1.hi then (g1, some .badBounds)
+    else ({ g1 with data := g.data.map fun r => r.map (minWord g.dtype b) }, none)
+
+/-- a call that changes (or tries to change) a grid object -/
+inductive Op (ν : Type) where
+  /-- one of the edits of §11; `data rows` with `rows` of ANY shape (the setter rejects a wrong one) -/
+  | edit (e : Edit ν)
+  /-- `grid[idx] = scalar` for any python index (`IndexError` outside `[-size, size)`) -/
+  | itemAt (idx : Int) (w : Nat)
+  /-- `grid.fill(value)`: `self.dtype(value)` may raise -/
+  | fillVal (v : NVal ν)
+  /-- `grid.data = array` with more than two dimensions (`ValueError` before anything is looked at) -/
+  | dataND
+  /-- `grid.nodata = value`: `self.dtype(value)` may raise -/
+  | nodataVal (v : NVal ν)
+  /-- `grid.mindata = value` -/
+  | mindata (v : NVal ν)
+  /-- `grid.maxdata = value` -/
+  | maxdata (v : NVal ν)
+  /-- `grid.load(stream, byteorder)` -/
+  | load (bo : ByteOrder) (bytes : List UInt8)
+
+def step {ν : Type} (io : NumIO ν) (g : Grid ν) : Op ν → Grid ν × Option Err
+  | .edit e =>
+    match applyEdit g e with
+    | .ok g' => (g', none)
+    | .error err => (g, some err)
+  | .itemAt idx w =>
+    match flatIndex g.data.flatten.length idx with
+    | some i => ({ g with data := setFlat g.data i w }, none)
+    | none => (g, some .badIndex)
+  | .fillVal v =>
+    match nodataWord io g.dtype v with
+    | .ok w => ({ g with data := g.data.map fun r => r.map fun _ => w }, none)
+    | .error e => (g, some e)
+  | .dataND => (g, some .wrongCount)
+  | .nodataVal v =>
+    match nodataWord io g.dtype v with
+    | .ok w => ({ g with nodata := w }, none)
+    | .error e => (g, some e)
+  | .mindata v => setMin io g v
+  | .maxdata v => setMax io g v
+  | .load bo bytes =>
+    match load g bo bytes with
+    | .ok g' => (g', none)
+    | .error e => (g, some e)
+
+/-- a history: the state after all calls and, call by call, whether it was rejected -/
+def run {ν : Type} (io : NumIO ν) : Grid ν → List (Op ν) → Grid ν × List (Option Err)
+  | g, [] => (g, [])
+  | g, op :: ops =>
+    let (g1, r) := step io g op
+    let (g2, rs) := run io g1 ops
+    (g2, r :: rs)
+
+/-! ### catchments as a state machine -/
+
+/-- `delineate_area(outlet, inlets)`: `res` is what the C kernel and the hole filling return (property C06), `none`
+when the kernel reports an error -/
+inductive COp where
+  | delineate (outlet : Int) (inlets : Option (List Int)) (res : Option (List Int × List Int))
+
+/-- the outlet and the inlets (`None` when none are given: the inlets of an earlier call do not stay) are stored first;
+on an error the areas are reset to `None` and `ValueError` is raised -/
+def cstep {ν : Type} (c : Catchment ν) : COp → Catchment ν × Option Err
+  | .delineate o inl res =>
+    let c1 := { c with outlet := some o, inlets := inl }
+    match res with
+    | none => ({ c1 with area := none, filled := none }, some .delineationFailed)
+    | some (a, f) => ({ c1 with area := some a, filled := some f }, none)
+
+def crun {ν : Type} : Catchment ν → List COp → Catchment ν
+  | c, [] => c
+  | c, op :: ops => crun (cstep c op).1 ops
+
+/-! ### `Grid.from_dict` on a dictionary with optional keys missing -/
+
+/-- a dictionary given to `from_dict`: `name` and `ncols` are looked up unconditionally (`KeyError`), every other key
+is optional and falls back on the default of `Grid.__init__` -/
+structure GridDictP (ν : Type) where
+  name : Option Str
+  ncols : Option Int
+  nrows : Option Int
+  csz : Option ν
+  xll : Option ν
+  yll : Option ν
+  dtype : Option Str
+  nodata : Option (NVal ν)
+  comment : Option Str
+
+def fromDictP {ν : Type} (io : NumIO ν) (d : GridDictP ν) : Except Err (Grid ν) :=
+  match d.name, d.ncols with
+  | some name, some ncols =>
+    let tE : Except Err DType := match d.dtype with
+      | none => .ok ⟨.float, 8⟩
+      | some s => match dtypeOfStr s with
+        | some (_, t) => .ok t
+        | none => .error .badDtype
+    match tE with
+    | .error e => .error e
+    | .ok t =>
+      mkGrid io name ncols (d.nrows.getD ncols) (d.csz.getD (io.ofInt 1)) (d.xll.getD (io.ofInt 0))
+        (d.yll.getD (io.ofInt 0)) t (d.nodata.getD (.int 0)) (d.comment.getD [])
+  | _, _ => .error .missingKey
+
+/-- the dictionary `to_dict` returns, seen as an argument of `from_dict`: every key is there -/
+def GridDict.full {ν : Type} (d : GridDict ν) : GridDictP ν :=
+  { name := some d.name, ncols := some d.ncols, nrows := some d.nrows, csz := some d.csz, xll := some d.xll,
+    yll := some d.yll, dtype := some d.dtype, nodata := some (.text d.nodata), comment := some d.comment }
+
+/-! ## 13. file names: `save(filename)`, `from_header(path)`, `from_zip(archive, member)`
+
+A path is a directory and a final component `name` (no `/` in it); a file system maps paths to files. -/
+
+inductive File where
+  | text (s : Str)
+  | bin (b : List UInt8)
+
+abbrev FS := List (Str × File)
+
+def pathJoin (dir name : Str) : Str := dir ++ '/' :: name
+
+/-- `str.endswith` -/
+def endsWith (s suf : Str) : Bool := startsWith s.reverse suf.reverse
+
+/-- `PurePath(name).stem` (python 3.12): the part before the last dot, provided that dot is neither the first nor the
+last character -/
+def stemOf (name : Str) : Str :=
+  let r := name.reverse
+  let suf := r.takeWhile (fun c => c != '.')
+  match r.dropWhile (fun c => c != '.') with
+  | [] => name
+  | _ :: pre => if pre ≠ [] ∧ suf ≠ [] then pre.reverse else name
+
+/-- `os.path.splitext(name)[0]`: the last dot starts the extension unless only dots precede it -/
+def splitextRoot (name : Str) : Str :=
+  match name.reverse.dropWhile (fun c => c != '.') with
+  | [] => name
+  | _ :: pre => if pre.all (fun c => c == '.') then name else pre.reverse
+
+/-- `Grid.save(dir/name)`: the name must end with `bil` (no dot required); the header goes to the same name with the
+last three characters replaced by `hdr` (`re.sub("bil$", "hdr", filename)`), the data to the name itself -/
+def saveFS {ν : Type} (io : NumIO ν) (fs : FS) (dir name : Str) (g : Grid ν) : Except Err FS :=
+  if !endsWith name "bil".toList then .error .badFilename else
+  match save io g with
+  | .error e => .error e
+  | .ok (h, bytes) =>
+    .ok (dictSet (dictSet fs (pathJoin dir (name.take (name.length - 3) ++ "hdr".toList)) (.text h))
+          (pathJoin dir name) (.bin bytes))
+
+/-- `Grid.from_header(dir/name)` for the header OR the data file: both names are rebuilt from `Path.stem`; a missing
+header is a `ValueError`, a missing data file gives the grid of the header alone; the default grid name is the base
+name of the header file without its extension -/
+def fromHeaderFS {ν : Type} (io : NumIO ν) (fs : FS) (dir name : Str) : Except Err (Grid ν) :=
+  let stem := stemOf name
+  match lookup fs (pathJoin dir (stem ++ ".hdr".toList)) with
+  | some (.text h) =>
+    let data : Option (List UInt8) := match lookup fs (pathJoin dir (stem ++ ".bil".toList)) with
+      | some (.bin b) => some b
+      | _ => none
+    fromStream io (splitextRoot (stem ++ ".hdr".toList)) h data
+  | _ => .error .missingFile
+
+/-- `Grid.from_zip(archive, dir/name)`: member names from `os.path.splitext`; a missing header member is a `KeyError`;
+the stream has no name (`no_name`) -/
+def fromZipFS {ν : Type} (io : NumIO ν) (archive : FS) (dir name : Str) : Except Err (Grid ν) :=
+  let base := splitextRoot name
+  match lookup archive (pathJoin dir (base ++ ".hdr".toList)) with
+  | some (.text h) =>
+    let data : Option (List UInt8) := match lookup archive (pathJoin dir (base ++ ".bil".toList)) with
+      | some (.bin b) => some b
+      | _ => none
+    fromStream io "no_name".toList h data
+  | _ => .error .missingKey
 
 end HydroVerif.C13
